@@ -113,9 +113,7 @@ OFFS = re.compile(r" (roff|hoff|doff|eoff)=-?\d+")
 def canonical(line):
     if line.startswith("fault"):
         return "fault"
-    if line.startswith("scan-gzip "):
-        # known finding C04:pipe:offsets-from-ftello - on a pipe ftello() fails, the reported offsets are not byte positions
-        return OFFS.sub("", line)
+    # (scan-gzip / scan-pipe lines keep their offsets: since ec6a8a0 loadmem() counts the bytes where ftello() fails)
     return line
 
 
@@ -595,7 +593,7 @@ def sessions(case, out):
         elif w[0] == "srcscan":
             # one synthetic session per scan through a gzip pipe / standard input
             cur = None
-            if line.startswith(("scan-gzip ", "scan-stdin ")):
+            if line.startswith(("scan-gzip ", "scan-stdin ", "scan-pipe ")):
                 tag, rest = line.split(" ", 1)
                 if rest.startswith("open-"):
                     continue                      # the open itself failed (empty file, undetectable format): nothing was read
@@ -603,12 +601,10 @@ def sessions(case, out):
                 opn = {"read": "read", "readinfo": "readinfo", "readseq": "readseq"}.get(call, "readwin")
                 items = []
                 for piece in rest.split(" ;; "):
-                    if tag == "scan-gzip":
-                        piece = OFFS.sub(lambda m: " %s=-1" % m.group(1), piece)
                     items.append((opn, d, piece))
                     if opn == "readwin" and piece.startswith("eod"):
                         items.append(("reuse", {}, "ok"))
-                res.append((data, dict(d, nooff=(tag == "scan-gzip")), items))
+                res.append((data, d, items))      # offsets on a pipe are checked like those of a file (fix ec6a8a0)
         elif cur is not None:
             cur[2].append((w[0], d, line))
     return res
